@@ -623,18 +623,24 @@ func (st *AclState) applyAccountsAdd(ch *aclrecordproto.AclAccountsAdd, record *
 		if err != nil {
 			return err
 		}
-		st.accountStates[mapKeyFromPubKey(identity)] = AccountState{
-			PubKey:          identity,
-			Permissions:     AclPermissions(acc.Permissions),
-			Status:          StatusActive,
-			RequestMetadata: acc.Metadata,
-			KeyRecordId:     st.CurrentReadKeyId(),
-			PermissionChanges: []PermissionChange{
-				{
-					Permission: AclPermissions(acc.Permissions),
-					RecordId:   record.Id,
-				},
+		permissionChanges := []PermissionChange{
+			{
+				Permission: AclPermissions(acc.Permissions),
+				RecordId:   record.Id,
 			},
+		}
+		// a re-added account keeps its permission history, otherwise PermissionsAtRecord
+		// forgets what it was allowed to do before it was removed
+		if state, exists := st.accountStates[mapKeyFromPubKey(identity)]; exists {
+			permissionChanges = append(state.PermissionChanges, permissionChanges[0])
+		}
+		st.accountStates[mapKeyFromPubKey(identity)] = AccountState{
+			PubKey:            identity,
+			Permissions:       AclPermissions(acc.Permissions),
+			Status:            StatusActive,
+			RequestMetadata:   acc.Metadata,
+			KeyRecordId:       st.CurrentReadKeyId(),
+			PermissionChanges: permissionChanges,
 		}
 
 		// If the current account is the one being added, then decrypt the read key using its private key
